@@ -43,6 +43,11 @@ pub fn registry() -> Arc<Reg> {
         entries.push(e);
         modelled.push(true);
     }
+    // the frozen program set (does not change with the seed or the generator): keeps saved cases replayable
+    for e in dv_frozen::entries() {
+        entries.push(e);
+        modelled.push(true);
+    }
     Arc::new(Reg { entries, modelled })
 }
 
@@ -114,7 +119,9 @@ pub fn case_gen(reg: Arc<Reg>, eligible: Vec<usize>, opts: GenOpts) -> GenFn {
     let mut weighted: Vec<usize> = vec![];
     for i in &eligible {
         let e = &reg.entries[*i];
-        let w = if e.origin == "gen" || e.origin == "hand" {
+        let w = if e.origin == "frozen" {
+            3
+        } else if e.origin == "gen" || e.origin == "hand" {
             8
         } else if matches!(
             e.ty,
@@ -343,7 +350,7 @@ pub fn regression_tier(prop: &str, include_slow: bool) -> (usize, usize, Vec<Str
         let Ok(s) = std::fs::read_to_string(&f) else { continue };
         let Ok(j) = serde_json::from_str::<J>(&s) else { continue };
         // cases over generated types are only meaningful for the very same program text
-        if j["case"]["origin"].as_str() == Some("gen") {
+        if matches!(j["case"]["origin"].as_str(), Some("gen") | Some("frozen")) {
             let same = reg
                 .as_ref()
                 .and_then(|r| r.find(j["case"]["type"].as_str().unwrap_or("")).map(|i| r.entries[i].source == j["case"]["type_source"].as_str().unwrap_or("")))
